@@ -88,6 +88,7 @@ type c05Spec struct {
 	R    int    `json:"r"`
 	Mode int    `json:"mode"` // 0 literal, 1 variables, 2 document fields
 	Post bool   `json:"post,omitempty"`
+	Rev  bool   `json:"rev,omitempty"`
 }
 
 var c05Fn = &Func{Name: "fn", Body: Blk(&Return{N("1")})}
@@ -238,6 +239,89 @@ func c05Check(c *fw.Ctx, s c05Spec, ops []c05Operand) *fw.Violation {
 	return expect(sp, o, res.Stdout, want, "operands "+ops[s.L].Name+" , "+ops[s.R].Name+" ; "+res.Err)
 }
 
+// c05Stream evaluates ONE expression site over a whole sequence of operand pairs (the elements of the input array), so
+// that anything remembered per site (a compiled pattern, a cached coercion) would show: all pairs for which the model
+// yields a value, in order or reversed, followed by one pair for which it fails.
+func c05Stream(c *fw.Ctx, form, op string, rev bool, ops []c05Operand) *fw.Violation {
+	unary := form != "bin"
+	var e Expr
+	l, r := Mem(V("$"), "l"), Mem(V("$"), "r")
+	switch form {
+	case "bin":
+		e = Bin(op, l, r)
+	case "is":
+		e = &IsExpr{l, op}
+	case "un":
+		e = Un(op, l)
+	}
+	prog := &Program{Rules: []*Rule{{Body: Blk(Ex(Asg("=", V("r"), e)), c05Show(V("r")))}}}
+	var good, bad []string
+	for li, L := range ops {
+		if L.JSON == "" {
+			continue
+		}
+		for ri, R := range ops {
+			if R.JSON == "" || (unary && ri > 0) {
+				continue
+			}
+			_ = li
+			el := `{"l":` + L.JSON + `,"r":` + R.JSON + `}`
+			res := (&progCase{P: prog, Files: []inFile{{"in.json", "[" + el + "]"}}}).model()
+			if res.Kind == "none" {
+				good = append(good, el)
+			} else if res.Kind == "runtime" {
+				bad = append(bad, el)
+			}
+		}
+	}
+	if rev {
+		for i, j := 0, len(good)-1; i < j; i, j = i+1, j-1 {
+			good[i], good[j] = good[j], good[i]
+		}
+	}
+	if len(bad) > 0 {
+		good = append(good, bad[len(bad)/2])
+	}
+	pc := &progCase{P: prog, Files: []inFile{{"in.json", "[" + strings.Join(good, ",") + "]"}}, MaxSteps: 5_000_000}
+	res := pc.model()
+	if res.Aborted || res.Unfixed != "" {
+		return nil
+	}
+	sp := pc.spec()
+	sp.Budget = 50*res.Steps + 10000
+	o := run(c, sp)
+	c.Traces++
+	c.Transitions += int64(len(good))
+	want := modelKind(res.Kind)
+	if o.Kind == want && c05Compare(o.Stdout, res.Stdout) {
+		return nil
+	}
+	// name the first element whose line differs
+	gl, wl := strings.Split(o.Stdout, "\n"), strings.Split(res.Stdout, "\n")
+	note := ""
+	for i := 0; i < len(wl) && i < len(good); i++ {
+		if i >= len(gl) || !c05Compare(gl[i], wl[i]) {
+			got := "(nothing)"
+			if i < len(gl) {
+				got = gl[i]
+			}
+			note = fmt.Sprintf("element %d %s: want %q, got %q", i, good[i], wl[i], got)
+			break
+		}
+	}
+	v := expect(sp, o, res.Stdout, want, note)
+	if v == nil {
+		v = &fw.Violation{What: "stdout differs from the model", Detail: detail{Program: sp.Program, WantStdout: clip(res.Stdout), Got: drive.Outcome{Stdout: clip(o.Stdout), Kind: o.Kind}, Note: note}}
+	}
+	if d, ok := v.Detail.(detail); ok {
+		d.Files = nil
+		d.Note = note
+		v.Detail = d
+	}
+	v.What = "one expression evaluated over a sequence of operand pairs: " + v.What
+	return v
+}
+
 func c05Kind(o c05Operand) string {
 	n := o.Name
 	switch {
@@ -261,14 +345,31 @@ func init() {
 	fw.Register(&fw.Prop{
 		ID: "C05",
 		Rule: "every binary operator x every ordered pair of the operand alphabet x three supply modes (literal, variables, document fields); every unary operator, ++/-- in both positions, `is` x 10 type names, " +
-			"and short-circuit probes with a tracing call; a state is a table cell (form, operator, left kind, right kind, outcome); non-trivial = cells whose model result is a value; numeric results are compared as doubles",
-		Plan: func(t fw.Tier) int { return len(c05Operands(t == fw.Thorough)) },
+			"short-circuit probes with a tracing call, and every operator as ONE expression site evaluated over the whole sequence of operand pairs (forward and reversed, ending in a failing pair); a state is a table cell (form, operator, left kind, right kind, outcome); non-trivial = cells whose model result is a value; numeric results are compared as doubles",
+		Plan: func(t fw.Tier) int { return len(c05Operands(t == fw.Thorough)) + 1 },
 		Bound: func(t fw.Tier) string {
 			return fmt.Sprintf("operand alphabet of %d values, all ordered pairs, all operators, 3 supply modes", len(c05Operands(t == fw.Thorough)))
 		},
 		Assumptions: []string{"reference tables DESIGN.md 3.2-3.8 as implemented in mc/refsem", "Go regexp is RE2", "strconv.ParseFloat decides which strings are numerals"},
 		Run: func(c *fw.Ctx, u int) {
 			ops := c05Operands(c.Thorough())
+			if u == len(ops) {
+				for _, rev := range []bool{false, true} {
+					for _, op := range c05BinOps {
+						s := c05Spec{Form: "stream-bin", Op: op, Rev: rev}
+						c.Do(func() any { return s }, func() *fw.Violation { return c05Stream(c, "bin", s.Op, s.Rev, ops) })
+					}
+					for _, t := range c05Types {
+						s := c05Spec{Form: "stream-is", Op: t, Rev: rev}
+						c.Do(func() any { return s }, func() *fw.Violation { return c05Stream(c, "is", s.Op, s.Rev, ops) })
+					}
+					for _, op := range c05UnOps {
+						s := c05Spec{Form: "stream-un", Op: op, Rev: rev}
+						c.Do(func() any { return s }, func() *fw.Violation { return c05Stream(c, "un", s.Op, s.Rev, ops) })
+					}
+				}
+				return
+			}
 			do := func(s c05Spec) {
 				c.Do(func() any { return s }, func() *fw.Violation { return c05Check(c, s, ops) })
 			}
@@ -297,6 +398,9 @@ func init() {
 			var s c05Spec
 			if !unmarshal(raw, &s) {
 				return nil
+			}
+			if strings.HasPrefix(s.Form, "stream-") {
+				return c05Stream(c, strings.TrimPrefix(s.Form, "stream-"), s.Op, s.Rev, c05Operands(c.Thorough()))
 			}
 			return c05Check(c, s, c05Operands(c.Thorough()))
 		},
